@@ -307,7 +307,6 @@ func registerIntrinsics(e *Engine) {
 	}
 	I["runtime.KeepAlive"] = I["runtime.Gosched"]
 	I["runtime.SetFinalizer"] = I["runtime.Gosched"]
-	I["time.Sleep"] = I["runtime.Gosched"]
 
 	// ---- strconv
 	I["strconv.Itoa"] = func(e *Engine, st *State, th *Thread, fn *ssa.Function, a []Value, in *ssa.Call) Value {
